@@ -20,11 +20,13 @@ impl Storage for Shared {
 pub struct Counting {
     pub inner: Arc<dyn Storage>,
     pub txns: std::sync::atomic::AtomicUsize,
+    /// when set, every txn() fails (storage outage seen by the server)
+    pub fail_all: std::sync::atomic::AtomicBool,
 }
 
 impl Counting {
     pub fn new(inner: Arc<dyn Storage>) -> Arc<Counting> {
-        Arc::new(Counting { inner, txns: std::sync::atomic::AtomicUsize::new(0) })
+        Arc::new(Counting { inner, txns: std::sync::atomic::AtomicUsize::new(0), fail_all: std::sync::atomic::AtomicBool::new(false) })
     }
     pub fn count(&self) -> usize {
         self.txns.load(std::sync::atomic::Ordering::SeqCst)
@@ -34,6 +36,9 @@ impl Counting {
 impl Storage for Counting {
     fn txn(&self, client_id: Uuid) -> anyhow::Result<Box<dyn StorageTxn + '_>> {
         self.txns.fetch_add(1, std::sync::atomic::Ordering::SeqCst);
+        if self.fail_all.load(std::sync::atomic::Ordering::SeqCst) {
+            anyhow::bail!("injected storage outage");
+        }
         self.inner.txn(client_id)
     }
 }
